@@ -525,6 +525,8 @@ func monitor(c Case) (kind, what string, params P) {
 		return monitorWithStack(c)
 	case "extras":
 		return tryExtras(c)
+	default:
+		return monitorMore(c)
 	}
 	return "", "", nil
 }
